@@ -86,6 +86,11 @@ func runCasesSkel(run *Run, cases []Case, ex Executor, cl Classifier, skel map[i
 			return
 		}
 		ops := replayMode.ops
+		if replayMode.sexp == "" && replayMode.src != "" {
+			if sx, err := LuaToSexp(replayMode.src); err == nil {
+				replayMode.sexp = sx
+			}
+		}
 		if replayMode.sexp != "" && len(ops) == 1 && ops[0].Args[0] == "prog" {
 			idx := storeProg(ProgCase{Src: replayMode.src, Sexp: replayMode.sexp, Note: "replay"})
 			ops = []Op{{Args: []string{"prog", fmt.Sprint(idx)}}}
